@@ -286,3 +286,501 @@ Proof.
     rewrite (map_iota_list (fun x => x)). apply map_id.
   - intros i Hi. rewrite (kget_at fromindex) by lia. reflexivity.
 Qed.
+
+(* ================================================================================================ *)
+(** * validity kernels: success exactly on the documented conditions, never out of bounds *)
+
+Ltac kcheck_cases :=
+  repeat match goal with
+         | |- context [kcheck ?b ?m] => let E := fresh "E" in destruct b eqn:E; cbn [kcheck kbind]
+         | |- context [if ?b then _ else _] => let E := fresh "E" in destruct b eqn:E; cbn [kcheck kbind]
+         end.
+
+Theorem ListArray_validity_safe starts stops n lc :
+  n <= zlen starts -> n <= zlen stops -> ListArray_validity starts stops n lc <> KOob.
+Proof.
+  intros H1 H2. unfold ListArray_validity. apply kchecks_safe. intros i Hi.
+  rewrite (kget_at starts), (kget_at stops) by lia. cbn [kbind]. kcheck_cases; congruence.
+Qed.
+
+Theorem ListArray_validity_spec starts stops n lc :
+  n <= zlen starts -> n <= zlen stops ->
+  (ListArray_validity starts stops n lc = KOk tt <->
+   forall i, 0 <= i < n ->
+     at_ starts i = at_ stops i \/ (at_ starts i < at_ stops i /\ 0 <= at_ starts i /\ at_ stops i <= lc)).
+Proof.
+  intros H1 H2. unfold ListArray_validity. split.
+  - intros E i Hi. apply kchecks_ok_inv with (i := i) in E; auto.
+    rewrite (kget_at starts), (kget_at stops) in E by lia. cbn [kbind] in E.
+    destruct (at_ starts i =? at_ stops i) eqn:E0; [left; lia|right].
+    unfold kcheck in E.
+    destruct (at_ stops i <? at_ starts i) eqn:E1; cbn [kbind] in E; [discriminate|].
+    destruct (at_ starts i <? 0) eqn:E2; cbn [kbind] in E; [discriminate|].
+    destruct (lc <? at_ stops i) eqn:E3; [discriminate|]. lia.
+  - intros H. apply kchecks_ok. intros i Hi. specialize (H i Hi).
+    rewrite (kget_at starts), (kget_at stops) by lia. cbn [kbind]. kcheck_cases; auto; lia.
+Qed.
+
+Theorem IndexedArray_validity_safe index n lc isoption :
+  n <= zlen index -> IndexedArray_validity index n lc isoption <> KOob.
+Proof.
+  intros H. unfold IndexedArray_validity. apply kchecks_safe. intros i Hi.
+  rewrite (kget_at index) by lia. cbn [kbind]. kcheck_cases; congruence.
+Qed.
+
+Theorem IndexedArray_validity_spec index n lc isoption :
+  n <= zlen index ->
+  (IndexedArray_validity index n lc isoption = KOk tt <->
+   forall i, 0 <= i < n -> at_ index i < lc /\ (isoption = false -> 0 <= at_ index i)).
+Proof.
+  intros H1. unfold IndexedArray_validity. split.
+  - intros E i Hi. apply kchecks_ok_inv with (i := i) in E; auto.
+    rewrite (kget_at index) in E by lia. cbn [kbind] in E. unfold kcheck in E.
+    destruct (negb isoption && (at_ index i <? 0)) eqn:E1; cbn [kbind] in E; [discriminate|].
+    destruct (lc <=? at_ index i) eqn:E2; [discriminate|]. split; [lia|]. intros ->. cbn in E1. lia.
+  - intros H. apply kchecks_ok. intros i Hi. destruct (H i Hi) as (A & B).
+    rewrite (kget_at index) by lia. cbn [kbind]. unfold kcheck.
+    destruct (negb isoption && (at_ index i <? 0)) eqn:E1; cbn [kbind].
+    + destruct isoption; cbn in E1; [discriminate|]. specialize (B eq_refl). lia.
+    + destruct (lc <=? at_ index i) eqn:E2; auto. lia.
+Qed.
+
+Theorem UnionArray_validity_safe tags index n nc lens :
+  n <= zlen tags -> n <= zlen index -> nc <= zlen lens -> UnionArray_validity tags index n nc lens <> KOob.
+Proof.
+  intros H1 H2 H3. unfold UnionArray_validity. apply kchecks_safe. intros i Hi.
+  rewrite (kget_at tags), (kget_at index) by lia. cbn [kbind]. unfold kcheck.
+  destruct (at_ tags i <? 0) eqn:E1; cbn [kbind]; [congruence|].
+  destruct (at_ index i <? 0) eqn:E2; cbn [kbind]; [congruence|].
+  destruct (nc <=? at_ tags i) eqn:E3; cbn [kbind]; [congruence|].
+  rewrite (kget_at lens) by lia. cbn [kbind]. destruct (at_ lens (at_ tags i) <=? at_ index i); congruence.
+Qed.
+
+Theorem UnionArray_validity_spec tags index n nc lens :
+  n <= zlen tags -> n <= zlen index -> nc <= zlen lens ->
+  (UnionArray_validity tags index n nc lens = KOk tt <->
+   forall i, 0 <= i < n -> 0 <= at_ tags i < nc /\ 0 <= at_ index i < at_ lens (at_ tags i)).
+Proof.
+  intros H1 H2 H3. unfold UnionArray_validity. split.
+  - intros E i Hi. apply kchecks_ok_inv with (i := i) in E; auto.
+    rewrite (kget_at tags), (kget_at index) in E by lia. cbn [kbind] in E. unfold kcheck in E.
+    destruct (at_ tags i <? 0) eqn:E1; cbn [kbind] in E; [discriminate|].
+    destruct (at_ index i <? 0) eqn:E2; cbn [kbind] in E; [discriminate|].
+    destruct (nc <=? at_ tags i) eqn:E3; cbn [kbind] in E; [discriminate|].
+    rewrite (kget_at lens) in E by lia. cbn [kbind] in E.
+    destruct (at_ lens (at_ tags i) <=? at_ index i) eqn:E4; [discriminate|]. lia.
+  - intros H. apply kchecks_ok. intros i Hi. specialize (H i Hi).
+    rewrite (kget_at tags), (kget_at index) by lia. cbn [kbind]. unfold kcheck.
+    destruct (at_ tags i <? 0) eqn:E1; cbn [kbind]; [lia|].
+    destruct (at_ index i <? 0) eqn:E2; cbn [kbind]; [lia|].
+    destruct (nc <=? at_ tags i) eqn:E3; cbn [kbind]; [lia|].
+    rewrite (kget_at lens) by lia. cbn [kbind].
+    destruct (at_ lens (at_ tags i) <=? at_ index i) eqn:E4; auto. lia.
+Qed.
+
+Theorem RegularArray_broadcast_tooffsets_safe tT fromoffsets ol size :
+  ol <= zlen fromoffsets -> RegularArray_broadcast_tooffsets tT fromoffsets ol size <> KOob.
+Proof.
+  intros H. unfold RegularArray_broadcast_tooffsets. apply kchecks_safe. intros i Hi.
+  rewrite (kget_at fromoffsets (i + 1)), (kget_at fromoffsets i) by lia. cbn [kbind]. unfold kcheck.
+  destruct (wrap tT (at_ fromoffsets (i + 1) - at_ fromoffsets i) <? 0); cbn [kbind]; [congruence|].
+  destruct (negb (size =? wrap tT (at_ fromoffsets (i + 1) - at_ fromoffsets i))); congruence.
+Qed.
+
+(** succeeds exactly when every list has [size] elements *)
+Theorem RegularArray_broadcast_tooffsets_spec fromoffsets ol size :
+  ol <= zlen fromoffsets ->
+  (RegularArray_broadcast_tooffsets TIdeal fromoffsets ol size = KOk tt <->
+   forall i, 0 <= i < ol - 1 -> at_ fromoffsets (i + 1) - at_ fromoffsets i = size /\ 0 <= size).
+Proof.
+  intros H1. unfold RegularArray_broadcast_tooffsets. split.
+  - intros E i Hi. apply kchecks_ok_inv with (i := i) in E; auto.
+    rewrite (kget_at fromoffsets (i + 1)), (kget_at fromoffsets i) in E by lia. cbn [kbind wrap] in E.
+    unfold kcheck in E.
+    destruct (at_ fromoffsets (i + 1) - at_ fromoffsets i <? 0) eqn:E1; cbn [kbind] in E; [discriminate|].
+    destruct (negb (size =? at_ fromoffsets (i + 1) - at_ fromoffsets i)) eqn:E2; [discriminate|]. lia.
+  - intros H. apply kchecks_ok. intros i Hi. specialize (H i Hi).
+    rewrite (kget_at fromoffsets (i + 1)), (kget_at fromoffsets i) by lia. cbn [kbind wrap]. unfold kcheck.
+    destruct (at_ fromoffsets (i + 1) - at_ fromoffsets i <? 0) eqn:E1; cbn [kbind]; [lia|].
+    destruct (negb (size =? at_ fromoffsets (i + 1) - at_ fromoffsets i)) eqn:E2; auto. lia.
+Qed.
+
+(* ================================================================================================ *)
+(** * compact offsets *)
+
+Lemma kupd0 x out v : kupd (x :: out) 0 v = KOk (v :: out).
+Proof. unfold kupd. rewrite zlen_cons. pose proof (zlen_nonneg out). destruct ((0 <=? 0) && (0 <? zlen out + 1)) eqn:E; [reflexivity|lia]. Qed.
+
+Lemma filled_1_cons x out n g :
+  0 <= n -> filled 1 n g (x :: out) = x :: map g (iota n) ++ skipn (Z.to_nat n) out.
+Proof.
+  intros H. unfold filled. change (Z.to_nat 1) with 1%nat. cbn [firstn app].
+  replace (Z.to_nat (1 + n)) with (S (Z.to_nat n)) by lia. reflexivity.
+Qed.
+
+Theorem ListOffsetArray_compact_offsets_safe tT tooffsets fromoffsets n :
+  0 <= n -> n + 1 <= zlen fromoffsets -> n + 1 <= zlen tooffsets ->
+  ListOffsetArray_compact_offsets tT tooffsets fromoffsets n <> KOob.
+Proof.
+  intros H0 H1 H2. unfold ListOffsetArray_compact_offsets.
+  rewrite (kget_at fromoffsets 0) by lia. cbn [kbind].
+  rewrite kupd_ok by lia. cbn [kbind]. apply kfill_safe; try lia.
+  - rewrite zlen_set_nth. lia.
+  - intros i Hi. rewrite (kget_at fromoffsets) by lia. cbn [kbind]. congruence.
+Qed.
+
+(** zero-based offsets: every entry minus the first one *)
+Theorem ListOffsetArray_compact_offsets_spec tooffsets fromoffsets :
+  1 <= zlen fromoffsets -> zlen fromoffsets <= zlen tooffsets ->
+  ListOffsetArray_compact_offsets TIdeal tooffsets fromoffsets (zlen fromoffsets - 1)
+  = KOk (map (fun o => o - at_ fromoffsets 0) fromoffsets ++ skipn (length fromoffsets) tooffsets).
+Proof.
+  intros H1 H2. unfold ListOffsetArray_compact_offsets.
+  rewrite (kget_at fromoffsets 0) by lia. cbn [kbind].
+  destruct tooffsets as [|t0 rest]; [rewrite zlen_nil in H2; lia|].
+  rewrite kupd0. cbn [kbind]. rewrite zlen_cons in H2.
+  destruct fromoffsets as [|f0 frest]; [rewrite zlen_nil in H1; lia|].
+  rewrite zlen_cons in *. pose proof (zlen_nonneg frest).
+  replace (zlen frest + 1 - 1) with (zlen frest) by lia.
+  rewrite (kfill_spec 1 (zlen frest) _ (fun i => at_ frest i - f0)).
+  - rewrite Z.max_r by lia. rewrite filled_1_cons by lia. cbn [map length skipn at_ nth Z.to_nat].
+    rewrite <- app_comm_cons. f_equal. f_equal; [lia|]. f_equal.
+    + apply (map_iota_list (fun o => o - f0)).
+    + f_equal. unfold zlen; lia.
+  - lia.
+  - rewrite zlen_cons. lia.
+  - intros i Hi. rewrite (kget_at (f0 :: frest)) by (rewrite zlen_cons; lia). cbn [kbind wrap].
+    unfold at_. replace (Z.to_nat (i + 1)) with (S (Z.to_nat i)) by lia. reflexivity.
+Qed.
+
+Theorem RegularArray_compact_offsets_safe tT tooffsets n size :
+  0 <= n -> n + 1 <= zlen tooffsets -> RegularArray_compact_offsets tT tooffsets n size <> KOob.
+Proof.
+  intros H0 H2. unfold RegularArray_compact_offsets.
+  rewrite kupd_ok by lia. cbn [kbind]. apply kfill_safe; try lia.
+  - rewrite zlen_set_nth. lia.
+  - congruence.
+Qed.
+
+Theorem RegularArray_compact_offsets_spec tooffsets n size :
+  0 <= n -> n + 1 <= zlen tooffsets ->
+  RegularArray_compact_offsets TIdeal tooffsets n size
+  = KOk (map (fun i => i * size) (iota (n + 1)) ++ skipn (Z.to_nat (n + 1)) tooffsets).
+Proof.
+  intros H0 H2. unfold RegularArray_compact_offsets.
+  destruct tooffsets as [|t0 rest]; [rewrite zlen_nil in H2; lia|].
+  rewrite kupd0. cbn [kbind]. rewrite zlen_cons in H2.
+  rewrite (kfill_spec 1 n _ (fun i => (i + 1) * size)); auto; try lia.
+  - rewrite Z.max_r by lia. rewrite filled_1_cons by lia.
+    replace (Z.to_nat (n + 1)) with (S (Z.to_nat n)) by lia. cbn [skipn].
+    unfold iota. replace (Z.to_nat (n + 1)) with (S (Z.to_nat n)) by lia. cbn [iota_nat map app].
+    f_equal. f_equal. change 1 with (0 + 1) at 2. now rewrite map_iota_nat_shift.
+  - rewrite zlen_cons. lia.
+Qed.
+
+(* ================================================================================================ *)
+(** * getitem_next_at *)
+
+Theorem RegularArray_getitem_next_at_safe tocarry at0 n size :
+  n <= zlen tocarry -> RegularArray_getitem_next_at tocarry at0 n size <> KOob.
+Proof.
+  intros H. unfold RegularArray_getitem_next_at. unfold kcheck.
+  destruct (negb _); cbn [kbind]; [congruence|]. apply kfill_safe; try lia. congruence.
+Qed.
+
+(** in range: element [at] (counted from the end if negative) of every row; out of range: the error *)
+Theorem RegularArray_getitem_next_at_spec tocarry at0 n size :
+  0 <= n -> n <= zlen tocarry ->
+  RegularArray_getitem_next_at tocarry at0 n size =
+  let ra := if at0 <? 0 then at0 + size else at0 in
+  if (0 <=? ra) && (ra <? size)
+  then KOk (map (fun i => i * size + ra) (iota n) ++ skipn (Z.to_nat n) tocarry)
+  else KErr MIndexOutOfRange.
+Proof.
+  intros H0 H. unfold RegularArray_getitem_next_at. cbv zeta.
+  destruct ((0 <=? (if at0 <? 0 then at0 + size else at0)) && ((if at0 <? 0 then at0 + size else at0) <? size)) eqn:E;
+    cbn [negb kcheck kbind]; auto.
+  rewrite (kfill_spec 0 n _ (fun i => i * size + (if at0 <? 0 then at0 + size else at0))); auto; try lia.
+  rewrite Z.max_r by lia. now rewrite filled_0_prefix by lia.
+Qed.
+
+Theorem ListArray_getitem_next_at_safe tT tC tocarry starts stops n at0 :
+  n <= zlen starts -> n <= zlen stops -> n <= zlen tocarry ->
+  ListArray_getitem_next_at tT tC tocarry starts stops n at0 <> KOob.
+Proof.
+  intros H1 H2 H3. unfold ListArray_getitem_next_at. apply kfill_safe; try lia.
+  intros i Hi. rewrite (kget_at starts), (kget_at stops) by lia. cbn [kbind]. unfold kcheck.
+  destruct (negb _); cbn [kbind]; congruence.
+Qed.
+
+Theorem ListArray_getitem_next_at_spec tocarry starts stops at0 :
+  zlen stops = zlen starts -> zlen starts <= zlen tocarry ->
+  (forall i, 0 <= i < zlen starts -> - (at_ stops i - at_ starts i) <= at0 < at_ stops i - at_ starts i) ->
+  ListArray_getitem_next_at TIdeal TIdeal tocarry starts stops (zlen starts) at0
+  = KOk (map (fun p => fst p + (if at0 <? 0 then at0 + (snd p - fst p) else at0)) (zip starts stops)
+         ++ skipn (length starts) tocarry).
+Proof.
+  intros H1 H2 H3. pose proof (zlen_nonneg starts). unfold ListArray_getitem_next_at.
+  rewrite (kfill_spec 0 (zlen starts) _
+             (fun i => at_ starts i + (if at0 <? 0 then at0 + (at_ stops i - at_ starts i) else at0))); try lia.
+  - rewrite Z.max_r by lia. rewrite filled_0_prefix by lia. f_equal. f_equal.
+    + rewrite (map_iota_zip (fun s e => s + (if at0 <? 0 then at0 + (e - s) else at0))) by lia. reflexivity.
+    + f_equal. unfold zlen; lia.
+  - intros i Hi. rewrite (kget_at starts), (kget_at stops) by lia. cbn [kbind wrap]. specialize (H3 i Hi).
+    unfold kcheck. destruct (at0 <? 0) eqn:E.
+    + destruct (negb _) eqn:E2; cbn [kbind]; auto. lia.
+    + destruct (negb _) eqn:E2; cbn [kbind]; auto. lia.
+Qed.
+
+(* ================================================================================================ *)
+(** * filter-and-push loops:  k = 0; for i: if (sel i = Some v) out[k++] = v *)
+
+Definition opt_list (o : option Z) : list Z := match o with Some v => [v] | None => [] end.
+Definition pushed (g : Z -> option Z) (j : Z) : list Z := flat_map (fun i => opt_list (g i)) (iota j).
+
+Lemma pushed_snoc g j : 0 <= j -> pushed g (j + 1) = pushed g j ++ opt_list (g j).
+Proof. intros H. unfold pushed. rewrite iota_snoc by lia. rewrite flat_map_app. cbn. now rewrite app_nil_r. Qed.
+
+Lemma pushed_le g j : 0 <= j -> zlen (pushed g j) <= j.
+Proof.
+  intros H. rewrite <- (Z2Nat.id j) by lia. induction (Z.to_nat j) as [|k IH].
+  - cbn. lia.
+  - rewrite Nat2Z.inj_succ. unfold Z.succ. rewrite pushed_snoc by lia. rewrite zlen_app.
+    destruct (g (Z.of_nat k)); cbn [opt_list]; unfold zlen in *; cbn [length]; lia.
+Qed.
+
+Definition push_body (sel : Z -> kres (option Z)) (i : Z) (st : list Z * Z) : kres (list Z * Z) :=
+  let* o := sel i in match o with Some v => kpush st v | None => KOk st end.
+
+Lemma kpush_app pre out v :
+  zlen pre < zlen out ->
+  kpush (pre ++ skipn (length pre) out, zlen pre) v = KOk ((pre ++ [v]) ++ skipn (length (pre ++ [v])) out, zlen (pre ++ [v])).
+Proof.
+  intros H. unfold kpush. pose proof (zlen_nonneg pre).
+  assert (L : zlen (pre ++ skipn (length pre) out) = zlen out).
+  { rewrite zlen_app. unfold zlen in *. rewrite skipn_length. lia. }
+  rewrite kupd_ok by lia. cbn [kbind]. f_equal. f_equal.
+  - unfold zlen at 1. rewrite Nat2Z.id. rewrite set_nth_app_r by lia. rewrite Nat.sub_diag.
+    rewrite set_nth_skipn_0 by (unfold zlen in H; lia).
+    rewrite <- app_assoc. cbn [app]. rewrite app_length. cbn [length]. rewrite Nat.add_1_r. reflexivity.
+  - rewrite zlen_app. reflexivity.
+Qed.
+
+Lemma kpushloop_spec sel g n out :
+  0 <= n ->
+  (forall i, 0 <= i < n -> sel i = KOk (g i)) ->
+  zlen (pushed g n) <= zlen out ->
+  kfor 0 n (push_body sel) (out, 0)
+  = KOk (pushed g n ++ skipn (length (pushed g n)) out, zlen (pushed g n)).
+Proof.
+  intros H0 Hsel Hcap.
+  assert (Mono : forall j, 0 <= j <= n -> zlen (pushed g j) <= zlen (pushed g n)).
+  { intros j Hj. replace n with (j + Z.of_nat (Z.to_nat (n - j))) by lia.
+    induction (Z.to_nat (n - j)) as [|k IH]; [rewrite Z.add_0_r; lia|].
+    rewrite Nat2Z.inj_succ. unfold Z.succ. rewrite Z.add_assoc. rewrite pushed_snoc by lia.
+    rewrite zlen_app. pose proof (zlen_nonneg (opt_list (g (j + Z.of_nat k)))). lia. }
+  destruct (kfor_inv (push_body sel)
+              (fun j st => st = (pushed g j ++ skipn (length (pushed g j)) out, zlen (pushed g j))) 0 n (out, 0))
+    as (s' & E & P); auto.
+  - intros j st Hj ->. unfold push_body. rewrite (Hsel j Hj). cbn [kbind].
+    rewrite pushed_snoc by lia.
+    destruct (g j) as [v|] eqn:G; cbn [opt_list].
+    + eexists; split; [|reflexivity]. apply kpush_app.
+      assert (Q : zlen (pushed g (j + 1)) <= zlen (pushed g n)) by (apply Mono; lia).
+      rewrite pushed_snoc in Q by lia. rewrite G in Q. cbn [opt_list] in Q. rewrite zlen_app in Q.
+      unfold zlen in *. cbn [length] in Q. lia.
+    + rewrite app_nil_r. eauto.
+  - now rewrite E, P.
+Qed.
+
+Lemma kpushloop_safe sel n out :
+  n <= zlen out ->
+  (forall i, 0 <= i < n -> sel i <> KOob) ->
+  kfor 0 n (push_body sel) (out, 0) <> KOob.
+Proof.
+  intros Hcap Hsel.
+  apply (kfor_noob _ (fun j st => zlen (fst st) = zlen out /\ 0 <= snd st <= j) 0 n (out, 0)).
+  - cbn. lia.
+  - intros j [o k] Hj (L & K). cbn [fst snd] in *. unfold push_body. specialize (Hsel j Hj).
+    destruct (sel j) as [[v|]| |]; cbn [kbind]; try congruence.
+    + unfold kpush. rewrite kupd_ok by lia. cbn [kbind]. split; [congruence|].
+      intros s' E; inversion E; subst. cbn [fst snd]. rewrite zlen_set_nth. lia.
+    + split; [congruence|]. intros s' E; inversion E; subst. cbn [fst snd]. lia.
+    + split; congruence.
+Qed.
+
+Lemma pushed_filter (p : Z -> bool) n : pushed (fun i => if p i then Some i else None) n = filter p (iota n).
+Proof.
+  unfold pushed. induction (iota n) as [|x l IH]; cbn [flat_map filter]; auto.
+  rewrite IH. destruct (p x); reflexivity.
+Qed.
+
+Lemma flat_map_iota_list (h : Z -> list Z) (a : list Z) :
+  flat_map (fun i => h (at_ a i)) (iota (zlen a)) = flat_map h a.
+Proof.
+  rewrite !flat_map_concat_map. f_equal. apply (map_iota_list h).
+Qed.
+
+(* ---- awkward_ByteMaskedArray_getitem_nextcarry *)
+Lemma ByteMasked_nextcarry_body mask n vw :
+  n <= zlen mask ->
+  forall j st, 0 <= j < n ->
+    (let* m := kget mask j in if Bool.eqb (negb (m =? 0)) vw then kpush st j else KOk st)
+    = push_body (fun i => KOk (if Bool.eqb (negb (at_ mask i =? 0)) vw then Some i else None)) j st.
+Proof.
+  intros H j st Hj. unfold push_body. rewrite (kget_at mask) by lia. cbn [kbind].
+  destruct (Bool.eqb _ vw); reflexivity.
+Qed.
+
+Theorem ByteMasked_nextcarry_safe tocarry mask n vw :
+  n <= zlen mask -> n <= zlen tocarry -> ByteMaskedArray_getitem_nextcarry tocarry mask n vw <> KOob.
+Proof.
+  intros H1 H2. unfold ByteMaskedArray_getitem_nextcarry.
+  rewrite (kfor_ext _ _ 0 n _ (ByteMasked_nextcarry_body mask n vw H1)).
+  pose proof (kpushloop_safe (fun i => KOk (if Bool.eqb (negb (at_ mask i =? 0)) vw then Some i else None)) n tocarry H2) as S.
+  destruct (kfor 0 n _ (tocarry, 0)); cbn [kbind]; try congruence.
+  exfalso. apply S; [intros; congruence|reflexivity].
+Qed.
+
+(** the carry is the list of valid positions, in order; the rest of the buffer is untouched *)
+Theorem ByteMasked_nextcarry_spec tocarry mask vw :
+  let valid := fun i => Bool.eqb (negb (at_ mask i =? 0)) vw in
+  zlen (filter valid (iota (zlen mask))) <= zlen tocarry ->
+  ByteMaskedArray_getitem_nextcarry tocarry mask (zlen mask) vw
+  = KOk (filter valid (iota (zlen mask)) ++ skipn (length (filter valid (iota (zlen mask)))) tocarry).
+Proof.
+  intros valid Hcap. pose proof (zlen_nonneg mask). unfold ByteMaskedArray_getitem_nextcarry.
+  rewrite (kfor_ext _ _ 0 (zlen mask) _ (ByteMasked_nextcarry_body mask (zlen mask) vw (Z.le_refl _))).
+  rewrite (kpushloop_spec _ (fun i => if valid i then Some i else None)); auto.
+  - cbn [kbind fst]. now rewrite pushed_filter.
+  - now rewrite pushed_filter.
+Qed.
+
+(* ---- awkward_IndexedArray_flatten_nextcarry *)
+Lemma flatten_nextcarry_body index n lc :
+  n <= zlen index ->
+  forall j st, 0 <= j < n ->
+    (let* x := kget index j in
+     let* _ := kcheck (lc <=? x) MIndexOutOfRange in
+     if 0 <=? x then kpush st x else KOk st)
+    = push_body (fun i => if lc <=? at_ index i then KErr MIndexOutOfRange
+                          else KOk (if 0 <=? at_ index i then Some (at_ index i) else None)) j st.
+Proof.
+  intros H j st Hj. unfold push_body. rewrite (kget_at index) by lia. cbn [kbind]. unfold kcheck.
+  destruct (lc <=? at_ index j); cbn [kbind]; auto. destruct (0 <=? at_ index j); reflexivity.
+Qed.
+
+Theorem IndexedArray_flatten_nextcarry_safe tocarry index n lc :
+  n <= zlen index -> n <= zlen tocarry -> IndexedArray_flatten_nextcarry tocarry index n lc <> KOob.
+Proof.
+  intros H1 H2. unfold IndexedArray_flatten_nextcarry.
+  rewrite (kfor_ext _ _ 0 n _ (flatten_nextcarry_body index n lc H1)).
+  match goal with |- context [kfor 0 n (push_body ?sel) _] => pose proof (kpushloop_safe sel n tocarry H2) as S end.
+  destruct (kfor 0 n _ (tocarry, 0)); cbn [kbind]; try congruence.
+  exfalso. apply S; [|reflexivity].
+  intros i Hi. destruct (lc <=? at_ index i); congruence.
+Qed.
+
+(** for an index within range: the non-negative entries, in order *)
+Theorem IndexedArray_flatten_nextcarry_spec tocarry index lc :
+  (forall i, 0 <= i < zlen index -> at_ index i < lc) ->
+  zlen (filter (fun x => 0 <=? x) index) <= zlen tocarry ->
+  IndexedArray_flatten_nextcarry tocarry index (zlen index) lc
+  = KOk (filter (fun x => 0 <=? x) index ++ skipn (length (filter (fun x => 0 <=? x) index)) tocarry).
+Proof.
+  intros Hr Hcap. pose proof (zlen_nonneg index). unfold IndexedArray_flatten_nextcarry.
+  rewrite (kfor_ext _ _ 0 (zlen index) _ (flatten_nextcarry_body index (zlen index) lc (Z.le_refl _))).
+  assert (PF : pushed (fun i => if 0 <=? at_ index i then Some (at_ index i) else None) (zlen index)
+               = filter (fun x => 0 <=? x) index).
+  { unfold pushed. rewrite (flat_map_iota_list (fun x => opt_list (if 0 <=? x then Some x else None))).
+    clear. induction index as [|x l IH]; cbn [flat_map filter]; auto.
+    rewrite IH. destruct (0 <=? x); reflexivity. }
+  rewrite (kpushloop_spec _ (fun i => if 0 <=? at_ index i then Some (at_ index i) else None)); auto.
+  - cbn [kbind fst]. now rewrite PF.
+  - intros i Hi. specialize (Hr i Hi). destruct (lc <=? at_ index i) eqn:E; auto. lia.
+  - now rewrite PF.
+Qed.
+
+(* ================================================================================================ *)
+(** * combinations: the counting loop computes the binomial coefficient *)
+
+Fixpoint binom (n k : nat) : nat :=
+  match k, n with
+  | O, _ => 1
+  | S _, O => 0
+  | S k', S n' => binom n' k' + binom n' (S k')
+  end.
+
+Lemma binom_0_r n : binom n 0 = 1%nat. Proof. destruct n; reflexivity. Qed.
+Lemma binom_S n k : binom (S n) (S k) = (binom n k + binom n (S k))%nat. Proof. reflexivity. Qed.
+Lemma binom_gt n : forall k, (n < k)%nat -> binom n k = 0%nat.
+Proof.
+  induction n; intros [|k] H; try lia; auto.
+  rewrite binom_S. rewrite !IHn by lia. reflexivity.
+Qed.
+Lemma binom_diag n : binom n n = 1%nat.
+Proof. induction n; auto. rewrite binom_S, IHn. rewrite binom_gt by lia. reflexivity. Qed.
+Lemma binom_1_r n : binom n 1 = n.
+Proof. induction n; auto. rewrite binom_S, IHn, binom_0_r. lia. Qed.
+
+(** (k+1) C(n,k+1) + k C(n,k) = n C(n,k) *)
+Lemma binom_step n : forall k, (S k * binom n (S k) + k * binom n k = n * binom n k)%nat.
+Proof.
+  induction n; intros k.
+  - destruct k; cbn; lia.
+  - destruct k as [|k].
+    + rewrite binom_1_r, !binom_0_r. lia.
+    + rewrite !binom_S. pose proof (IHn (S k)) as A. pose proof (IHn k) as B. nia.
+Qed.
+
+Lemma binom_sym n : forall k, (k <= n)%nat -> binom n k = binom n (n - k).
+Proof.
+  induction n; intros k H.
+  - replace k with O by lia. reflexivity.
+  - destruct k as [|k].
+    + rewrite Nat.sub_0_r, binom_0_r, binom_diag. reflexivity.
+    + destruct (Nat.eq_dec k n) as [->|N].
+      * rewrite binom_diag, Nat.sub_diag. reflexivity.
+      * replace (S n - S k)%nat with (S (n - S k)) by lia.
+        rewrite !binom_S. rewrite (IHn k) by lia. rewrite (IHn (S k)) by lia.
+        replace (n - k)%nat with (S (n - S k)) by lia. lia.
+Qed.
+
+(** one pass of the C loop:  combinationslen *= (size - j + 1); combinationslen /= j; *)
+Lemma comb_fold size m :
+  (m < size)%nat ->
+  fold_left (fun (acc : Z * Z) (_ : Z) => let '(c, j) := acc in (c * (Z.of_nat size - j + 1) / j, j + 1))
+            (iota (Z.of_nat m)) (Z.of_nat size, 2)
+  = (Z.of_nat (binom size (S m)), Z.of_nat m + 2).
+Proof.
+  induction m; intros H.
+  - cbn. rewrite binom_1_r. reflexivity.
+  - rewrite Nat2Z.inj_succ. unfold Z.succ. rewrite iota_snoc by lia. rewrite fold_left_app. rewrite IHm by lia.
+    cbn [fold_left]. f_equal; [|lia].
+    pose proof (binom_step size (S m)) as A.
+    assert (E : Z.of_nat (binom size (S m)) * (Z.of_nat size - (Z.of_nat m + 2) + 1)
+                = Z.of_nat (binom size (S (S m))) * (Z.of_nat m + 2)) by nia.
+    rewrite E. apply Z.div_mul. lia.
+Qed.
+
+(** k_spec of the counting loop: for n >= 1 it is the binomial coefficient C(size, n) *)
+Theorem combinations_count_binom n size :
+  1 <= n -> 0 <= size -> combinations_count n size = Z.of_nat (binom (Z.to_nat size) (Z.to_nat n)).
+Proof.
+  intros Hn Hs. unfold combinations_count.
+  destruct (size <? n) eqn:E1.
+  - rewrite binom_gt by lia. reflexivity.
+  - destruct (n =? size) eqn:E2.
+    + replace (Z.to_nat size) with (Z.to_nat n) by lia. now rewrite binom_diag.
+    + set (thisn := if size <? n * 2 then size - n else n).
+      assert (T : 1 <= thisn < size) by (unfold thisn; destruct (size <? n * 2) eqn:E3; lia).
+      assert (B : binom (Z.to_nat size) (Z.to_nat thisn) = binom (Z.to_nat size) (Z.to_nat n)).
+      { unfold thisn. destruct (size <? n * 2); auto.
+        rewrite (binom_sym (Z.to_nat size) (Z.to_nat n)) by lia. f_equal. lia. }
+      rewrite <- B.
+      pose proof (comb_fold (Z.to_nat size) (Z.to_nat (thisn - 1))) as F.
+      rewrite !Z2Nat.id in F by lia.
+      rewrite F by lia. cbn [fst]. do 2 f_equal. lia.
+Qed.
+
+Example combinations_count_5_2 : combinations_count 2 5 = 10. Proof. reflexivity. Qed.
